@@ -1,5 +1,7 @@
 #![cfg_attr(coverage_nightly, feature(coverage_attribute))]
 #![cfg_attr(docsrs, feature(doc_cfg))]
+// Verification hook (H1): lets the model checker name `Allocator` in a `Vec::resize` stub; never set in normal builds.
+#![cfg_attr(kani, feature(allocator_api))]
 
 //! Infinity pool: object pools with trait object support and multiple access models.
 //!
